@@ -77,6 +77,7 @@ type proc struct {
 	cmd           *exec.Cmd
 	args          []string
 	syncArgs      []string
+	env           []string // extra environment of the replica process
 	log           *os.File
 	wantUp        bool
 	mu            sync.Mutex
@@ -91,6 +92,7 @@ type cluster struct {
 	order  []string
 	jiva   string
 	work   string
+	preEnv map[string][]string // extra environment for replica processes spawned later, by name
 }
 
 type run struct {
@@ -141,6 +143,9 @@ func (r *run) modes(cl *cluster) map[string]interface{} {
 }
 
 func newCluster(ip, jiva, work string, rf int) (*cluster, error) {
+	if abs, err := filepath.Abs(jiva); err == nil {
+		jiva = abs // the start script changes directory
+	}
 	cl := &cluster{ip: ip, jiva: jiva, work: work, procs: map[string]*proc{}, fe: &stubFrontend{}}
 	fac := dynamic.New(map[string]types.BackendFactory{"tcp": remote.New()})
 	cl.c = controller.NewController(controller.WithName("vol"), controller.WithFrontend(cl.fe, ""),
@@ -168,7 +173,7 @@ func portSlot() int {
 func (cl *cluster) spawn(name, ip string, extra ...string) error {
 	p := cl.procs[name]
 	if p == nil {
-		p = &proc{name: name, ip: ip, dir: filepath.Join(cl.work, name)}
+		p = &proc{name: name, ip: ip, dir: filepath.Join(cl.work, name), env: cl.preEnv[name]}
 		cl.procs[name] = p
 		cl.order = append(cl.order, name)
 		// The replica's own sync agent always hands out ssync receiver ports from 9700-9800 and
@@ -220,6 +225,7 @@ func (cl *cluster) startLocked(p *proc) error {
 	cmd.Stdout, cmd.Stderr = lf, lf
 	cmd.SysProcAttr = &syscall.SysProcAttr{Setpgid: true}
 	cmd.Env = append(os.Environ(), "REPLICATION_FACTOR="+os.Getenv("REPLICATION_FACTOR"))
+	cmd.Env = append(cmd.Env, p.env...)
 	if err := cmd.Start(); err != nil {
 		return err
 	}
@@ -591,7 +597,9 @@ func main() {
 			r.clone.stop()
 		}
 		time.Sleep(50 * time.Millisecond)
-		os.RemoveAll(wd)
+		if os.Getenv("VERIF_KEEP") == "" {
+			os.RemoveAll(wd)
+		}
 	}
 	_ = sort.Strings
 }
@@ -610,6 +618,10 @@ func (r *run) runClone(subnet, wd string) {
 	}
 	snaps := []string{}
 	nsn := 1 + rng.Intn(3)
+	failVariant := os.Getenv("VERIF_CLONE_FAILRELOAD") != "" && r.sc.ID%3 == 2 // experimental, see DESIGN.md 9
+	if failVariant && nsn < 2 {
+		nsn = 2 // the failing-reload variant needs a snapshot below S (chain limit >= 2 to start at all)
+	}
 	for i := 0; i < nsn; i++ {
 		name := fmt.Sprintf("c%d", i+1)
 		_, err := cl.c.Snapshot(name)
@@ -628,6 +640,9 @@ func (r *run) runClone(subnet, wd string) {
 		return
 	}
 	S := snaps[rng.Intn(len(snaps))]
+	if failVariant {
+		S = snaps[len(snaps)-1]
+	}
 	// image of S at the source, by the raw reader
 	src := view(cl.procs["a1"].dir)
 	// the new volume
@@ -639,14 +654,40 @@ func (r *run) runClone(subnet, wd string) {
 		os.Exit(2)
 	}
 	r.clone = c2
-	interrupt := rng.Intn(3) == 0
+	// scenario id decides the variant: undisturbed / clone process killed in the middle / reload fails
+	interrupt := r.sc.ID%3 == 1
+	// a clone that cannot complete: the clone replica's chain limit is one short of what the
+	// cloned chain (snapshots up to S + head) needs, so its reload after the transfer fails.
+	// It must end as an error and never be served.
+	failReload := failVariant
+	if failReload {
+		idx := 0
+		for i, n := range snaps {
+			if n == S {
+				idx = i
+			}
+		}
+		// the source chain below S also holds the automatic snapshots of the bootstrap; count them
+		depth := 0
+		for i, n := range src.Chain { // head .. base
+			if n == "s-"+S {
+				depth = len(src.Chain) - i
+			}
+		}
+		_ = idx
+		c2.preEnv = map[string][]string{"k1": {fmt.Sprintf("MAX_CHAIN_LENGTH=%d", depth)}}
+	}
 	if err := c2.spawn("k1", subnet+".102", "--type", "clone", "--cloneIP", cl.ip, "--snapName", S); err != nil {
 		fmt.Fprintln(os.Stderr, "HARNESS-ERROR: spawn clone:", err)
 		os.Exit(2)
 	}
-	r.emit("CloneSpawn", map[string]interface{}{"snap": S, "srcsnap": src.Snaps["s-"+S], "srcchain": src.Chain, "interrupt": interrupt})
+	r.emit("CloneSpawn", map[string]interface{}{"snap": S, "srcsnap": src.Snaps["s-"+S], "srcchain": src.Chain, "interrupt": interrupt,
+		"failreload": failReload})
 	// sample clone status / modes until it is RW (or time is up); writes go on at the source
 	deadline := time.Now().Add(60 * time.Second)
+	if failReload {
+		deadline = time.Now().Add(25 * time.Second)
+	}
 	killed := false
 	samples := 0
 	for time.Now().Before(deadline) {
@@ -696,6 +737,19 @@ func (r *run) runClone(subnet, wd string) {
 			srcrev = dm.RevisionCounter
 		}
 	}
-	r.emit("CloneFinal", map[string]interface{}{"snap": S, "res": res, "out": out, "srcsnap": srcv.Snaps["s-"+S],
+	// the chain as the clone replica's engine sees it (its management API), next to the raw view
+	echain := []string{}
+	if resp, herr := (&http.Client{Timeout: 3 * time.Second}).Get("http://" + subnet + ".102:9502/v1/replicas/1"); herr == nil {
+		var rep struct {
+			Chain []string `json:"chain"`
+		}
+		if json.NewDecoder(resp.Body).Decode(&rep) == nil {
+			for _, n := range rep.Chain {
+				echain = append(echain, rawfs.Norm(n))
+			}
+		}
+		resp.Body.Close()
+	}
+	r.emit("CloneFinal", map[string]interface{}{"snap": S, "res": res, "out": out, "srcsnap": srcv.Snaps["s-"+S], "echain": echain,
 		"cv": cv, "srcrev": srcrev, "cctl": r.modes(c2), "killed": killed})
 }
